@@ -102,7 +102,8 @@ func (p *pkgInfo) isChanExpr(e ast.Expr) bool {
 	case *ast.Ident:
 		return p.chans[x.Name]
 	case *ast.SelectorExpr:
-		return p.chanFields[x.Sel.Name]
+		// a struct field of channel type declared in this package, or the C of a time.Ticker / time.Timer
+		return p.chanFields[x.Sel.Name] || x.Sel.Name == "C"
 	case *ast.ParenExpr:
 		return p.isChanExpr(x.X)
 	}
